@@ -36,7 +36,7 @@ def cases(tier, seed):
     out = []
     for i in range(n):
         out.append({"kind": ("single", "single", "batch", "group", "mock")[int(rng.integers(0, 5))],
-                    "N": int(rng.choice([1, 2, 3, 5, 8, 17, 26])), "S": int(rng.choice([3, 4, 5])),
+                    "N": int(rng.choice([1, 2, 3, 5, 8, 17, 26, 26, 130, 257])), "S": int(rng.choice([3, 4, 5])),
                     "sched": ("sync", "threads", "threads", "shuffle")[int(rng.integers(0, 4))],
                     "workers": int(rng.choice([1, 2, 3, 4, 8])),
                     "chunk": int(rng.choice([0, 0, 5, 9, 16])), "order": int(rng.choice([0, 1])),
@@ -130,8 +130,9 @@ def run(case):
     p = case.params
     rng = gen.rng_for(p["iseed"], "c09")
     N, S = p["N"], p["S"]
-    if N > S ** 3:
-        N = p["N"] = S ** 3
+    if p["kind"] == "mock" and N > 40:
+        N = p["N"] = 40
+    big = N > S ** 3          # too many molecules for one-hot coding: plain averages only
     shape = (S, S, S)
     if p["kind"] == "mock":
         _mock_case(case, rng, p)
@@ -169,7 +170,13 @@ def run(case):
                            float(np.abs(a - ref_).max()) <= TOLERANCES["rel"] * amp,
                            "group average[key] != average of that group's own loader", None, key=k)
         # ---------------- split on one-hot data
-        if N >= 2:
+        if N >= 2 and big:
+            # recombination law without knowing the sets
+            rh = np.asarray(loader.average_split(n_set=1, seed=p["split_seed"], squeeze=False))
+            ok = any(float(np.abs((n0 * rh[0, 0] + (N - n0) * rh[0, 1]) / N - avg).max()) <= 1e-4 * amp
+                     for n0 in range(1, N))
+            case.check(ok, "no count-weighted mean of the half-maps gives the full average", None, N=N)
+        if N >= 2 and not big:
             oh_loader, oh_exp, _ = _world(rng, p, onehot=True)
             n_set, sd = p["n_set"], p["split_seed"]
             halves = np.asarray(oh_loader.average_split(n_set=n_set, seed=sd, squeeze=False))
